@@ -232,10 +232,17 @@ def thm_ice_increasing(T1: "real", T2: "real"):
 
 
 # ---------------------------------------------------------------- RH <-> VMR
-contract(M + "relative_humidity2vmr", prop=P, params=dict(RH="real", p="real", T="real", e_eq=Kind("posfunc")),
-         requires=["p > 0"], ensures=["result == RH * e_eq(T) / p"])
-contract(M + "vmr2relative_humidity", prop=P, params=dict(vmr="real", p="real", T="real", e_eq=Kind("posfunc")),
-         requires=["p > 0"], ensures=["result == vmr * p / e_eq(T)"])
+def EQ(f):
+    """the saturation function in force: the one passed, or e_eq_water_mk when the argument is left to its default (None)"""
+    return A.e_eq_water_mk if f is None else f
+
+
+EQ.__pyvc_native__ = True
+_E_CFG = [{}, {"e_eq": None}]          # a caller-supplied positive function / the default
+c_rh2v = contract(M + "relative_humidity2vmr", prop=P, params=dict(RH="real", p="real", T="real", e_eq=Kind("posfunc")), configs=_E_CFG,
+                  env={"EQ": EQ}, requires=["p > 0", "implies(e_eq is None, T > 0)"], ensures=["result == RH * EQ(e_eq)(T) / p"])
+c_v2rh = contract(M + "vmr2relative_humidity", prop=P, params=dict(vmr="real", p="real", T="real", e_eq=Kind("posfunc")), configs=_E_CFG,
+                  env={"EQ": EQ}, requires=["p > 0", "implies(e_eq is None, T > 0)"], ensures=["result == vmr * p / EQ(e_eq)(T)"])
 
 
 @theorem(P, "rh-vmr-inverse", E=Kind("posfunc"))
@@ -251,11 +258,45 @@ def thm_rh(RH: "real", x: "real", p: "real", T: "real", E):
 
 # ---------------------------------------------------------------- moist lapse rate
 GD = "constants.earth_standard_gravity / constants.isobaric_mass_heat_capacity"
-WS = "vmr2mixing_ratio(e_eq(T) / p)"
-contract(M + "moist_lapse_rate", prop=P, params=dict(p="real", T="real", e_eq=Kind("posfunc")),
-         requires=["100 <= T", "T <= 400", "p > e_eq(T)"],
-         ensures=["result > 0",
-                  "result <= " + GD,
-                  # quantitative form of 'approaches g/cp as the saturation mixing ratio vanishes'
-                  "%s - result <= %s * constants.heat_of_vaporization**2 * %s"
-                  " / (constants.isobaric_mass_heat_capacity * constants.gas_constant_water_vapor * T**2)" % (GD, GD, WS)])
+WS = "vmr2mixing_ratio(EQ(e_eq)(T) / p)"
+c_mlr = contract(M + "moist_lapse_rate", prop=P, params=dict(p="real", T="real", e_eq=Kind("posfunc")), configs=_E_CFG, env={"EQ": EQ},
+                 requires=["100 <= T", "T <= 400", "p > EQ(e_eq)(T)"],
+                 ensures=["result > 0",
+                          "result <= " + GD,
+                          # quantitative form of 'approaches g/cp as the saturation mixing ratio vanishes' -- for the saturation
+                          # function in force, i.e. the one the caller passed
+                          "%s - result <= %s * constants.heat_of_vaporization**2 * %s"
+                          " / (constants.isobaric_mass_heat_capacity * constants.gas_constant_water_vapor * T**2)" % (GD, GD, WS)])
+
+
+# samplers for the concrete passes (contract-on-samples, replays): every saturation function of the module, the default, a Tetens-type
+# formula and functions scaled towards 0 (the 'saturation mixing ratio vanishes' end)
+def _tetens(T):
+    import numpy as _np
+    return 610.78 * _np.exp(17.27 * (T - 273.16) / (T - 35.86))
+
+
+def _e_choices(rng):
+    k = rng.choice([1e-3, 1e-9])
+    return rng.choice([None, A.e_eq_water_mk, A.e_eq_ice_mk, A.e_eq_mixed_mk, _tetens, lambda T: k * A.e_eq_water_mk(T)])
+
+
+def _pT(rng):
+    return rng.choice([100.0, 5000.0, 50000.0, 101325.0, 110000.0, rng.uniform(100, 110000)]), rng.choice([100.0, 250.16, 273.16, 300.0, 400.0, rng.uniform(100, 400)])
+
+
+def _mlr_sampler(rng):
+    p, T = _pT(rng)
+    return dict(p=p, T=T, e_eq=_e_choices(rng))
+
+
+def _rh_sampler(name):
+    def s(rng):
+        p, T = _pT(rng)
+        return {name: rng.choice([0.0, 1.0, 0.5, rng.uniform(0, 1.2)]), "p": p, "T": T, "e_eq": _e_choices(rng)}
+    return s
+
+
+c_mlr.sampler = _mlr_sampler
+c_rh2v.sampler = _rh_sampler("RH")
+c_v2rh.sampler = _rh_sampler("vmr")
